@@ -323,6 +323,9 @@ func (p *Proxy) serve(id int, c net.Conn) {
 		return
 	}
 	defer u.Close()
+	if tc, ok := u.(*net.TCPConn); ok {
+		tc.SetReadBuffer(16 << 10) // a held stream must push back on the leader quickly
+	}
 	p.mu.Lock()
 	p.conns[id*2+1] = u
 	p.mu.Unlock()
